@@ -21,6 +21,7 @@ from lib import Infra, q
 
 MODULE = "ProbLogProofs.Properties.C17"
 THEOREMS = [
+    "ProbLogProofs.C17.C17_roundtrip_partial",
     "ProbLogProofs.C17.C17_roundtrip_refuted_or_operand",
     "ProbLogProofs.C17.C17_roundtrip_refuted_prefix_operand",
     "ProbLogProofs.C17.C17_roundtrip_refuted_left_nested_and",
@@ -526,8 +527,15 @@ def run(ctx):
     n_unsafe = ctx.budget(1500, 30000)
     rng = ctx.sub_rng("ast")
     asts = []
-    for i in range(n_safe + n_unsafe):
+    n_plain = ctx.budget(1500, 20000)
+    plain_dumps = set()
+    for i in range(n_safe + n_unsafe + n_plain):
         g = U.Gen(rng, ops, safe=i < n_safe)
+        if i >= n_safe + n_unsafe:
+            t = g.plain(rng.choice([1, 2, 3, 4, 5]))
+            plain_dumps.add(U.dump(t))
+            asts.append((t, True))
+            continue
         t = g.statement(rng.choice([1, 2, 2, 3, 3, 4]))
         if i < n_safe:
             # known-defect filter: the main stream avoids the shapes listed in known/C17.json, so that any
@@ -548,6 +556,21 @@ def run(ctx):
         except U.Unrepresentable:
             continue
         keep.append((t, safe, d))
+    m_cls = drv.run(["cls " + d for _, _, d in keep])
+    first_cls_diff = None
+    n_in = 0
+    for (t, safe, d), mc in zip(keep, m_cls):
+        if mc.startswith("in"):
+            n_in += 1
+            ctx.count("ast:in-class-of-roundtrip-theorem")
+            if mc != "in same" and first_cls_diff is None:
+                first_cls_diff = (d[:300], mc)
+        elif d in plain_dumps and first_cls_diff is None:
+            first_cls_diff = (d[:300], "an operator-free term is not in the class: " + mc)
+    if first_cls_diff:
+        ctx.disagree("token list of C17_roundtrip_partial vs tokens of the printed text", "%s: %s" % first_cls_diff)
+    ctx.obligation("theorem tie: for %d generated terms of the class, S.toks = tokenize(print t) and collapse gives t" % n_in,
+                   first_cls_diff is None and n_in > 100)
     m_print = drv.run(["print " + d for _, _, d in keep])
     m_rt = drv.run(["rt " + d for _, _, d in keep])
     first_print_diff = None
